@@ -5,6 +5,7 @@ package main
 // variables, return classification, instruction-level reachability.
 
 import (
+	"go/ast"
 	"go/constant"
 	"go/token"
 	"go/types"
@@ -111,6 +112,15 @@ func reachingStores(alloc ssa.Value, at ssa.Instruction) (vals []ssa.Value, zero
 func canon(v ssa.Value) ssa.Value {
 	for i := 0; i < 20; i++ {
 		v = stripConv(v)
+		// values crossing the boundary of a helper introduced after the reference tree (see world.go):
+		// a parameter of a helper with one call site is the argument passed there; the result of a helper
+		// with one success return is the value returned there
+		if len(newFuncs) > 0 {
+			if nv := throughNewHelper(v); nv != nil {
+				v = nv
+				continue
+			}
+		}
 		u, ok := v.(*ssa.UnOp)
 		if !ok || u.Op != token.MUL {
 			return v
@@ -130,6 +140,65 @@ func canon(v ssa.Value) ssa.Value {
 		}
 	}
 	return v
+}
+
+func throughNewHelper(v ssa.Value) ssa.Value {
+	switch x := v.(type) {
+	case *ssa.Parameter:
+		h := x.Parent()
+		if !isNewHelper(h) || len(ctxSites[h]) != 1 {
+			return nil
+		}
+		args := ctxSites[h][0].Common().Args
+		for i, p := range h.Params {
+			if p == x && i < len(args) {
+				return args[i]
+			}
+		}
+	case *ssa.Extract:
+		c, ok := x.Tuple.(*ssa.Call)
+		if !ok {
+			return nil
+		}
+		if r := singleSuccessReturn(c.Call.StaticCallee()); r != nil && x.Index < len(r.Results) {
+			return r.Results[x.Index]
+		}
+	case *ssa.Call:
+		if _, isTuple := x.Type().(*types.Tuple); isTuple {
+			return nil
+		}
+		if r := singleSuccessReturn(x.Call.StaticCallee()); r != nil && len(r.Results) == 1 {
+			return r.Results[0]
+		}
+	}
+	return nil
+}
+
+var singleRetMemo = map[*ssa.Function]*ssa.Return{}
+
+// singleSuccessReturn: the only return of a new helper that can report success (nil for other functions).
+func singleSuccessReturn(h *ssa.Function) *ssa.Return {
+	if !isNewHelper(h) {
+		return nil
+	}
+	if r, ok := singleRetMemo[h]; ok {
+		return r
+	}
+	singleRetMemo[h] = nil
+	var only *ssa.Return
+	n := 0
+	for _, r := range Returns(h) {
+		if r.Kind == RetError {
+			continue
+		}
+		n++
+		only = r.Ret
+	}
+	if n != 1 {
+		only = nil
+	}
+	singleRetMemo[h] = only
+	return only
 }
 
 // ---- facts -------------------------------------------------------------------
@@ -256,7 +325,117 @@ func DomFacts(b *ssa.BasicBlock) []Fact {
 		out = append(out, f)
 		out = append(out, expandHelperFact(f, 0)...)
 	}
+	out = append(out, contextFacts(b.Parent(), 0)...)
 	return out
+}
+
+// ---- contextual facts ------------------------------------------------------------
+//
+// A block of code moved into a helper keeps the guards of the place it was moved from: the facts that
+// dominate *every* static call site of a helper hold on entry to it. Only functions whose call sites are
+// all visible qualify: top-level module functions that are never used as a value, are not exported
+// methods (interface satisfaction, SDK entry points) and whose name is not an invoked interface method.
+
+var (
+	ctxSites   map[*ssa.Function][]ssa.CallInstruction
+	ctxEscapes map[*ssa.Function]bool
+	ctxMemo    map[*ssa.Function][]Fact
+	ctxBusy    map[*ssa.Function]bool
+)
+
+func buildCtxIndex(w *World) {
+	ctxSites = map[*ssa.Function][]ssa.CallInstruction{}
+	ctxEscapes = map[*ssa.Function]bool{}
+	ctxMemo = map[*ssa.Function][]Fact{}
+	ctxBusy = map[*ssa.Function]bool{}
+	helperFactsMemo = map[helperKey][]Fact{}
+	invoked := map[string]bool{}
+	for _, f := range w.ProdFuncs {
+		for _, b := range f.Blocks {
+			for _, in := range b.Instrs {
+				var callee *ssa.Function
+				if ci, ok := in.(ssa.CallInstruction); ok {
+					if ci.Common().IsInvoke() {
+						invoked[ci.Common().Method.Name()] = true
+					} else if h := ci.Common().StaticCallee(); h != nil {
+						callee = h
+						ctxSites[h] = append(ctxSites[h], ci)
+					}
+				}
+				for _, op := range in.Operands(nil) {
+					if op == nil || *op == nil {
+						continue
+					}
+					if fn, ok := (*op).(*ssa.Function); ok && fn != callee {
+						ctxEscapes[fn] = true
+					}
+					if mc, ok := (*op).(*ssa.MakeClosure); ok {
+						if fn, ok := mc.Fn.(*ssa.Function); ok {
+							ctxEscapes[fn] = true
+						}
+					}
+				}
+			}
+		}
+	}
+	for _, f := range w.ProdFuncs {
+		if f.Parent() != nil || f.Synthetic != "" {
+			ctxEscapes[f] = true
+			continue
+		}
+		if f.Signature.Recv() != nil && (ast.IsExported(f.Name()) || invoked[f.Name()]) {
+			ctxEscapes[f] = true
+		}
+		if f.Name() == "init" || f.Name() == "main" {
+			ctxEscapes[f] = true
+		}
+	}
+}
+
+func contextFacts(h *ssa.Function, depth int) []Fact {
+	if h == nil || depth > 3 || ctxSites == nil || ctxEscapes[h] || ctxBusy[h] {
+		return nil
+	}
+	if r, ok := ctxMemo[h]; ok {
+		return r
+	}
+	sites := ctxSites[h]
+	if len(sites) == 0 {
+		return nil
+	}
+	ctxBusy[h] = true
+	defer delete(ctxBusy, h)
+	var result []Fact
+	for i, c := range sites {
+		fs := domFactsCtx(c.Block(), depth+1)
+		if i == 0 {
+			result = fs
+			continue
+		}
+		var keep []Fact
+		for _, a := range result {
+			for _, x := range fs {
+				if sameFact(a, x) {
+					keep = append(keep, a)
+					break
+				}
+			}
+		}
+		result = keep
+	}
+	if depth == 0 {
+		ctxMemo[h] = result
+	}
+	return result
+}
+
+// domFactsCtx: DomFacts of a call-site block, with the caller's own context bounded by depth.
+func domFactsCtx(b *ssa.BasicBlock, depth int) []Fact {
+	out := domFactsRaw(b, 0)
+	for i := range out {
+		_ = i
+	}
+	return append(out, contextFacts(b.Parent(), depth)...)
 }
 
 // ---- guard helpers ---------------------------------------------------------------
@@ -267,14 +446,44 @@ func DomFacts(b *ssa.BasicBlock) []Fact {
 // guard by what is tested (callee, field, constant) see through the helper, while rules that need the
 // identity of a caller value do not (they keep reporting "not recognised").
 
-var helperFactsMemo = map[*ssa.Function]map[bool][]Fact{}
+type helperKey struct {
+	h    *ssa.Function
+	idx  int
+	want bool // bool result: the value; error result: true = nil error
+}
+
+var helperFactsMemo = map[helperKey][]Fact{}
 
 func expandHelperFact(f Fact, depth int) []Fact {
-	if depth > 2 || (f.Kind != FTrue && f.Kind != FFalse) {
+	if depth > 2 {
 		return nil
 	}
-	call, ok := canon(f.V).(*ssa.Call)
-	if !ok {
+	var call *ssa.Call
+	idx := 0
+	want := false
+	switch f.Kind {
+	case FTrue, FFalse:
+		c, ok := canon(f.V).(*ssa.Call)
+		if !ok {
+			return nil
+		}
+		call, want = c, f.Kind == FTrue
+	case FNil:
+		// `err == nil` for the error result of a helper
+		switch x := canon(f.V).(type) {
+		case *ssa.Call:
+			call = x
+		case *ssa.Extract:
+			c, ok := x.Tuple.(*ssa.Call)
+			if !ok {
+				return nil
+			}
+			call, idx = c, x.Index
+		default:
+			return nil
+		}
+		want = true
+	default:
 		return nil
 	}
 	h := call.Call.StaticCallee()
@@ -282,23 +491,29 @@ func expandHelperFact(f Fact, depth int) []Fact {
 		return nil
 	}
 	res := h.Signature.Results()
-	if res.Len() != 1 {
+	if idx >= res.Len() {
 		return nil
 	}
-	if bt, ok := res.At(0).Type().Underlying().(*types.Basic); !ok || bt.Kind() != types.Bool {
-		return nil
-	}
-	want := f.Kind == FTrue
-	if m, ok := helperFactsMemo[h]; ok {
-		if r, ok := m[want]; ok {
-			return withSite(r, f)
+	isErr := false
+	if f.Kind == FNil {
+		if !isErrorType(res.At(idx).Type()) {
+			return nil
+		}
+		isErr = true
+	} else {
+		if res.Len() != 1 {
+			return nil
+		}
+		if bt, ok := res.At(0).Type().Underlying().(*types.Basic); !ok || bt.Kind() != types.Bool {
+			return nil
 		}
 	}
-	r := helperFacts(h, want, depth)
-	if helperFactsMemo[h] == nil {
-		helperFactsMemo[h] = map[bool][]Fact{}
+	key := helperKey{h, idx, want}
+	if r, ok := helperFactsMemo[key]; ok {
+		return withSite(r, f)
 	}
-	helperFactsMemo[h][want] = r
+	r := helperFacts(h, idx, want, isErr, depth)
+	helperFactsMemo[key] = r
 	return withSite(r, f)
 }
 
@@ -318,7 +533,7 @@ func sameFact(a, b Fact) bool {
 // helperFacts: facts implied by "h returned want": the intersection, over every return of h whose value
 // can be want, of the facts dominating that return (for a returned φ of the return block: per incoming
 // edge, the facts dominating the predecessor plus its branch edge). Dominance-based, hence loop-safe.
-func helperFacts(h *ssa.Function, want bool, depth int) []Fact {
+func helperFacts(h *ssa.Function, idx int, want bool, isErr bool, depth int) []Fact {
 	var result []Fact
 	first := true
 	merge := func(pf []Fact) {
@@ -337,7 +552,21 @@ func helperFacts(h *ssa.Function, want bool, depth int) []Fact {
 		}
 		result = keep
 	}
-	consider := func(v ssa.Value, facts []Fact) {
+	consider := func(v ssa.Value, facts []Fact, at *ssa.BasicBlock) {
+		if isErr {
+			switch classifyErrVal(v, at, 0) {
+			case RetSuccess:
+				merge(facts)
+			case RetError:
+				// this return reports failure: not a path on which the caller saw nil
+			default:
+				rf := Fact{Kind: FNil, V: canon(v)}
+				pf := append(append([]Fact{}, facts...), rf)
+				pf = append(pf, expandHelperFact(rf, depth+1)...)
+				merge(pf)
+			}
+			return
+		}
 		if bv, ok := boolConst(canon(v)); ok {
 			if bv == want {
 				merge(facts)
@@ -359,18 +588,18 @@ func helperFacts(h *ssa.Function, want bool, depth int) []Fact {
 			continue
 		}
 		nRet++
-		if len(r.Results) != 1 {
+		if idx >= len(r.Results) {
 			return nil
 		}
-		v := r.Results[0]
+		v := r.Results[idx]
 		if ph, isPhi := v.(*ssa.Phi); isPhi && ph.Block() == b {
 			pp := factsPerPredRaw(b, depth)
 			for i := range b.Preds {
-				consider(ph.Edges[i], pp[i])
+				consider(ph.Edges[i], pp[i], b.Preds[i])
 			}
 			continue
 		}
-		consider(v, domFactsRaw(b, depth))
+		consider(v, domFactsRaw(b, depth), b)
 	}
 	if nRet == 0 || first {
 		return nil
@@ -683,8 +912,17 @@ func Returns(f *ssa.Function) []RetInfo {
 // (or at function entry when from == nil) reaches an instruction in `to`
 // without executing any instruction in `avoid`. It returns the reached target.
 func ReachAvoiding(f *ssa.Function, from ssa.Instruction, to map[ssa.Instruction]bool, avoid map[ssa.Instruction]bool) ssa.Instruction {
+	return reachAvoidingRaw(f, normFrom(f, from), normTo(f, to), normAvoid(f, avoid))
+}
+
+func reachAvoidingRaw(f *ssa.Function, from ssa.Instruction, to map[ssa.Instruction]bool, avoid map[ssa.Instruction]bool) ssa.Instruction {
 	if len(f.Blocks) == 0 {
 		return nil
+	}
+	if from != nil && from.Parent() != f {
+		// an instruction of another function that could not be mapped into f: nothing can be said about
+		// paths "after" it; be conservative and start from the function entry
+		from = nil
 	}
 	seen := map[*ssa.BasicBlock]bool{}
 	type pos struct {
@@ -831,6 +1069,7 @@ func RefusingFacts(target ssa.Instruction) []Fact {
 // (possibly negated) only follows the matching successor. This removes the infeasible paths
 // created by flag variables (`invalid = true ... if invalid {...}`).
 func ReachFromTopPS(f *ssa.Function, start *ssa.BasicBlock, to, avoid map[ssa.Instruction]bool) ssa.Instruction {
+	to, avoid = normTo(f, to), normAvoid(f, avoid)
 	type state struct {
 		b   *ssa.BasicBlock
 		env string
